@@ -24,7 +24,7 @@ static int sched_read(char *buf, long max_size)
     if (n > max_size) n = max_size;
     if (n > 0) memcpy(buf, g_data + g_pos, (size_t) n);
     g_pos += n;
-    printf("Q %ld\n", n);
+    printf("Q %ld %ld\n", n, max_size);
     return (int) n;
 }
 static void load_all(int argc, char **argv)
@@ -141,16 +141,22 @@ def make_spec(prog, rng, backend, bufsize=None, extra_options=None):
     return "\n".join(out) + "\n"
 
 
+MAXSIZES = []          # the max_size arguments of the read requests of the run parsed last
+
+
 def parse_events(out):
     evs = []
+    del MAXSIZES[:]
     for line in out.decode(errors="replace").splitlines():
         p = line.split()
         if not p:
             continue
         if p[0] == 'T' and len(p) == 4:
             evs.append(('T', int(p[1]), int(p[2]), int(p[3])))
-        elif p[0] == 'Q' and len(p) == 2:
+        elif p[0] == 'Q' and len(p) in (2, 3):
             evs.append(('Q', int(p[1])))
+            if len(p) == 3:
+                MAXSIZES.append(int(p[2]))
         else:
             evs.append(('?', line[:60]))
     return evs
@@ -204,12 +210,14 @@ def eval_sched_case(flex, workdir, case):
     adjx = tables.adj_sexp(t)
     queries = []
     runs = []
+    reqchecks = []
     for ii, (mode, w, schedule) in enumerate(case['inputs']):
         ipath = os.path.join(workdir, "in%d.bin" % ii)
         with open(ipath, "wb") as f:
             f.write(bytes(w))
         rc, out, err = run([os.path.join(workdir, "s.exe"), mode, ipath] + [str(x) for x in schedule], timeout=6)
         evs = parse_events(out)
+        maxsizes = list(MAXSIZES)
         errs = err.decode(errors="replace")
         runs.append((mode, w, schedule, rc, evs, errs))
         toks = [(e[1], e[2]) for e in evs if e[0] == 'T']
@@ -224,6 +232,18 @@ def eval_sched_case(flex, workdir, case):
                     chunks.append(w[pos:pos + e[1]])
                     pos += e[1]
             queries.append("(wtokens t 1 1 %s (%s))" % (adjx, " ".join("(" + " ".join(str(b) for b in c) + ")" for c in chunks)))
+            # the buffer arithmetic (coq/BufLayout.v): the max_size of every request from the length of the unfinished token
+            ntms = []
+            got = done = 0
+            for e in evs:
+                if e[0] == 'Q':
+                    ntms.append(got - done)
+                    got += e[1]
+                elif e[0] == 'T':
+                    done += e[2]
+            if rc == 0 and len(ntms) == len(maxsizes) and all(x >= 0 for x in ntms):
+                queries.append("(requests %d (%s))" % (case.get('bufsize') or 16384, " ".join(str(x) for x in ntms)))
+                reqchecks.append((len(queries) - 1, ii, maxsizes))
     sx = "(case %s\n%s\n(queries (%s)))\n" % (scanner.sx_program(prog), tsx, "\n".join(queries))
     rc, out, err = scanner.run_driver(sx, workdir, timeout=120)
     if rc == "timeout":
@@ -234,7 +254,7 @@ def eval_sched_case(flex, workdir, case):
         return res
     lines = out.splitlines()
     li = 0
-    for (mode, w, schedule, rrc, evs, errs) in runs:
+    for run_index, (mode, w, schedule, rrc, evs, errs) in enumerate(runs):
         vline = lines[li] if li < len(lines) else ""
         li += 1
         toks = [(e[1], e[2]) for e in evs if e[0] == 'T']
@@ -285,4 +305,14 @@ def eval_sched_case(flex, workdir, case):
                     if 0 < consumed <= len(w) and w[consumed - 1] == 0:
                         kind = 'request-early-after-nul'
                 res['problems'].append((kind, "%s at event %d: real=%s window-machine=%s" % (desc, k, rev[k:k + 4], mev[k:k + 4])))
+            rq = [x for x in reqchecks if x[1] == run_index]
+            if rq:
+                rl = lines[li] if li < len(lines) else ""
+                li += 1
+                want = [int(x) for x in rl.split()[1:]] if rl.startswith("requests") else None
+                res['requests_checked'] = res.get('requests_checked', 0) + len(rq[0][2])
+                if want != rq[0][2]:
+                    k = next((i for i in range(min(len(want or []), len(rq[0][2]))) if want[i] != rq[0][2][i]), 0)
+                    res['problems'].append(('request-size-mismatch', "%s: request %d asks for %s bytes, the buffer model (coq/BufLayout.v) for %s" % (
+                        desc, k, rq[0][2][k:k + 3], (want or [])[k:k + 3])))
     return res
